@@ -500,6 +500,7 @@ family_mut!(chk_mut_c09, G_C09);
 family_mut!(chk_mut_c13, G_C13);
 family_mut!(chk_mut_c06, G_C06);
 family_mut!(chk_mut_c03, G_C03);
+family_mut!(chk_mut_c12, G_C04);
 
 // ------------------------------------------------------------------------------------------------
 // C03 with the GENERATOR as oracle: the expected content of a generated file is given as a trace of
